@@ -37,6 +37,8 @@ CHECKS = {
             "distinct and non-trivial when the repository state (hash of the "
             "sorted uri/hash list) contains at least one validated payload "
             "and differs from the previous observation of that history."
+            " Round d: a sixth boundary script runs the key-roll script "
+            "with ROAs in aggregated mode (thresholds 1/1). "
         ),
         "assumptions": COMMON_ASSUMPTIONS + [RP_ASSUMPTION],
         "level_text": (
@@ -209,6 +211,11 @@ CHECKS = {
             "distinct_nontrivial = distinct (step kind, mode, #pending, "
             "#running of that name / #due, ties / restart k) situations "
             "and (operation kind, outcome) follow-up situations."
+            " Round e: the restart cases also run on an instance with more "
+            "than five CAs and with the queue state a crash inside the "
+            "completion of a parent synchronisation leaves behind (no entry "
+            "at all for that task): start-up must schedule the refresh "
+            "again. "
         ),
         "assumptions": COMMON_ASSUMPTIONS + [
             "'eventually executed' is restated as bounded progress: the "
@@ -389,6 +396,11 @@ CHECKS = {
             "continuations; distinct_nontrivial = distinct (retention, "
             "#deltas offered, #serials held) views and distinct (retention, "
             "cut label) cuts."
+            " Round d: the operation whose mutations are cut rotates "
+            "between an update, an explicit session reset and the snapshot "
+            "job on the content log; a serial a client has seen never comes "
+            "back; after a crash the server must not load behind the serial "
+            "it has served. "
         ),
         "assumptions": COMMON_ASSUMPTIONS + [
             "a crash loses everything after a mutation boundary; torn "
@@ -494,6 +506,9 @@ CHECKS = {
             "set) pair for which the set inferred from the users served "
             "equals the table and at least one role-bearing user was served "
             "and one refused (plus POST /auth/login requires login)."
+            " Round d: both leaf CAs of the world have an open issue (their "
+            "parent forgot them), so that the issues listing has entries to "
+            "filter. "
         ),
         "assumptions": [
             "executions are produced by the harness' seeded generators; "
@@ -756,6 +771,9 @@ CHECKS = {
             "whitespace/NFKC families x password variants. A case is "
             "distinct and non-trivial = a (mutation class or login kind, "
             "provider chain, transport/peer) cell that was judged."
+            " Round d: another base64 spelling of the bytes of an issued "
+            "token (padding dropped, other alphabet, non-zero trailing "
+            "bits) is a re-encoded token and must authenticate nobody. "
         ),
         "assumptions": [
             "executions are produced by the harness' seeded generators; "
@@ -833,6 +851,9 @@ CHECKS = {
             "other thread asleep and at most 1 s of CPU used by the "
             "process, is the witness; calls outstanding after 150 s while "
             "the process keeps working are inconclusive. "
+            " Round e: after the queue became idle the RRDP snapshot on "
+            "disk must equal the content the server accepted (polled for 20 "
+            "s). "
         ),
         "assumptions": COMMON_ASSUMPTIONS + [
             "interleavings are sampled from the OS scheduler under seeded "
@@ -931,6 +952,11 @@ CHECKS = {
             "entry), i.e. how far into processing the input got; for the HTTP "
             "slice (route template, status). Counters panics, exits, "
             "digest_changes_after_error must be 0 apart from known findings."
+            " Round d/e: scripted, validly signed publication requests with "
+            "repeated or contradicting elements for one URI (accepted "
+            "content is made RRDP-visible before the next request); free- "
+            "text fields get multi-byte text placed across typical byte "
+            "limits. "
         ),
         "assumptions": COMMON_ASSUMPTIONS + [
             "the API entries are a hand-written mirror of dispatch/*.rs and "
@@ -974,6 +1000,10 @@ CHECKS = {
             "view comparisons across restart and removal checks. A case is "
             "distinct and non-trivial per (exchange kind, outcome, cause) "
             "triple that was observed and compared."
+            " Round e: a difference between the status list and the "
+            "server's content is reported under one of three signatures "
+            "(content differs for an object the server holds / object of "
+            "the server not listed / entries the server does not hold). "
         ),
         "assumptions": COMMON_ASSUMPTIONS + [
             "refusals have real causes only (child removed at the parent, "
@@ -1049,6 +1079,10 @@ CHECKS = {
             "and probes) is still there. evaluations = oracle evaluations; "
             "distinct_nontrivial = distinct (pair, realisation, mutation "
             "label) cuts checked."
+            " Round d: a 20th pair cuts the daily snapshot job; after every "
+            "crash realisation the publication server must not load at a "
+            "serial behind the one its notification file on disk already "
+            "names. "
         ),
         "assumptions": COMMON_ASSUMPTIONS + [RP_ASSUMPTION,
             "a crash loses everything after a mutation boundary; torn "
@@ -1175,6 +1209,9 @@ CHECKS = {
             "with the old key's certificate, manifest and CRL gone and the "
             "tree exact. evaluations = invariant evaluations; "
             "distinct_nontrivial = distinct (target, kind@gap) cases run."
+            " Round d/e: cases alternate between simple and aggregated "
+            "(per-ASN) ROA mode; the manifest of every non-current key "
+            "(new, old) must list nothing besides its CRL. "
         ),
         "assumptions": COMMON_ASSUMPTIONS + [RP_ASSUMPTION,
             "orders of background tasks other than the ones the scripted "
